@@ -10,7 +10,11 @@ H(v) == IF IsS(v) THEN (IF v[2] = "" THEN 1 ELSE 2)
         ELSE IF IsA(v) THEN (5 + Len(v[2]) + 7 * (IF Len(v[2]) >= 1 THEN H(v[2][1]) ELSE 0) + 11 * (IF Len(v[2]) >= 2 THEN H(v[2][2]) ELSE 0)) % 1009
         ELSE (3 + Len(v[2]) + 13 * (IF Len(v[2]) >= 1 THEN H(v[2][1][2]) + Len(v[2][1][1]) ELSE 0)
                 + 17 * (IF Len(v[2]) >= 2 THEN H(v[2][2][2]) + Len(v[2][2][1]) ELSE 0)) % 1009
-Nested(r) == [r |-> r, ne |-> NoEmptyValues(<<Flatten(Dot, r)>>), shape |-> KeysOf(Flatten(<<"|">>, r)), dom |-> InLawDomain(Dot, r)]
+\* ne: no empty value (XTAB, PPRINT, markdown can carry it); shape: the flattened key list (equal shapes may share a CSV);
+\* dom: inside the domain of the identity law; seps: the separators under which flattening gives distinct, clash-free names
+\* je: flattens to a single empty value (no line-oriented format with a header can carry it)
+Nested(r) == [r |-> r, ne |-> NoEmptyValues(<<Flatten(Dot, r)>>), je |-> ~NotJustEmpty(<<Flatten(Dot, r)>>), shape |-> KeysOf(Flatten(<<"|">>, r)), dom |-> InLawDomain(Dot, r),
+              seps |-> {sep \in Seps : DistinctKeys(Flatten(sep, r)) /\ ~Clash(sep, Flatten(sep, r))}]
 Slots == CASE Family \in {"pairs", "triples"} -> Formats
            [] Family \in {"nested", "sepkeys"} -> 0..(Slices - 1)
            [] Family = "flags" -> {0}
